@@ -501,4 +501,138 @@ example : uuidAst.Accepts "ABCDEF12-abcd-5678-1234-567812345678".toList := by de
 example : ¬ uuidAst.Accepts "12345678-1234-5678-1234-56781234567".toList := by decide
 example : ¬ uuidAst.Accepts "1234567g-1234-5678-1234-567812345678".toList := by decide
 
+/-! ## iso8601_date  (`(?P<year>\d{4})(?:-(?P<month>\d\d)(?:-(?P<day>\d\d))?)?`) -/
+
+theorem ends_seq_det {a : Re} {fa} (ha : Det a fa) (b : Re) (s : List Char) :
+    (seq a b).ends s = match fa s with
+      | none => []
+      | some e => b.ends e := by
+  simp only [Re.ends, ha s]
+  cases fa s <;> simp
+
+theorem ends_seq_assoc (a b c : Re) (s : List Char) :
+    (seq a (seq b c)).ends s = (seq (seq a b) c).ends s := by
+  simp only [Re.ends, List.flatMap_assoc]
+
+theorem det_dd : Det dd (takeN dset.has 2) := by
+  intro s
+  unfold dd digit
+  cases s with
+  | nil => simp [Re.ends, takeN]
+  | cons c t =>
+    cases t with
+    | nil => by_cases hc : dset.has c = true <;> simp [Re.ends, takeN, hc]
+    | cons c2 t2 =>
+      by_cases hc : dset.has c = true <;> by_cases hc2 : dset.has c2 = true <;> simp [Re.ends, takeN, hc, hc2]
+
+/-- `-` followed by exactly `n` digits -/
+def dashDig (n : Nat) (s : List Char) : Option (List Char) := (expect dashs.has s).bind (takeN dset.has n)
+
+theorem dashDig_some (n : Nat) (s e : List Char) :
+    dashDig n s = some e ↔ ∃ w, s = '-' :: (w ++ e) ∧ w.length = n ∧ ∀ c ∈ w, IsDigit c := by
+  unfold dashDig
+  rw [Option.bind_eq_some_iff]
+  constructor
+  · rintro ⟨t, h1, h2⟩
+    obtain ⟨c, rfl, hc⟩ := (expect_some _ _ _).1 h1
+    obtain ⟨w, rfl, hl, hw⟩ := (takeN_some _ _ _ _).1 h2
+    have : c = '-' := (has_lit '-' c).1 hc
+    subst this
+    exact ⟨w, rfl, hl, fun x hx => (has_digit x).1 (hw x hx)⟩
+  · rintro ⟨w, rfl, hl, hw⟩
+    refine ⟨w ++ e, ?_, takeN_append _ _ _ _ hl (fun x hx => (has_digit x).2 (hw x hx))⟩
+    simp [expect, CSet.has, Item.has]
+
+theorem dashDig_none_nil (n : Nat) : dashDig n [] = none := by simp [dashDig, expect]
+
+/-- the preferred match of the date pattern: the year, then as many of `-mm`, `-dd` as are there -/
+def isoDateFn (s : List Char) : Option (List Char) :=
+  (takeN dset.has 4 s).map (fun e =>
+    match dashDig 2 e with
+    | none => e
+    | some e2 => match dashDig 2 e2 with
+      | none => e2
+      | some e3 => e3)
+
+theorem isoDate_head (s : List Char) : (isoDateAst.ends s).head? = isoDateFn s := by
+  unfold isoDateAst isoDateFn
+  simp only [seqs]
+  have hY : Det (grp 1 (exactly 4 digit)) (takeN dset.has 4) := det_grp 1 (det_exact_set dset 4)
+  have hD3 : Det (seq (lit '-') (grp 3 dd)) (dashDig 2) := det_seq (det_set dashs) (det_grp 3 det_dd)
+  have hD2 : Det (seq (lit '-') (grp 2 dd)) (dashDig 2) := det_seq (det_set dashs) (det_grp 2 det_dd)
+  rw [ends_seq_det hY]
+  cases hy : takeN dset.has 4 s with
+  | none => simp
+  | some e =>
+    simp only [Option.map_some]
+    rw [ends_opt_progress (seq (lit '-') (seq (grp 2 dd) (opt (seq (lit '-') (grp 3 dd))))) e
+      (fun x hx => seq_set_progress dashs _ e x hx)]
+    -- the inner `- mm (-dd)?`
+    have hx2 : (seq (lit '-') (seq (grp 2 dd) (opt (seq (lit '-') (grp 3 dd))))).ends e =
+        match dashDig 2 e with
+        | none => []
+        | some e2 => (seq (lit '-') (grp 3 dd)).ends e2 ++ [e2] := by
+      rw [ends_seq_assoc, ends_seq_det hD2]
+      cases hd : dashDig 2 e with
+      | none => rfl
+      | some e2 =>
+        exact ends_opt_progress (seq (lit '-') (grp 3 dd)) e2 (fun x hx => seq_set_progress dashs _ e2 x hx)
+    rw [hx2]
+    cases hd : dashDig 2 e with
+    | none => simp
+    | some e2 =>
+      simp only
+      rw [hD3 e2]
+      cases hd3 : dashDig 2 e2 <;> simp
+
+/-- documented syntax: `yyyy`, `yyyy-mm` or `yyyy-mm-dd` (decimal digits) -/
+def IsIsoDate (s : List Char) : Prop :=
+  ∃ y, y.length = 4 ∧ (∀ c ∈ y, IsDigit c) ∧
+    (s = y ∨ ∃ m, m.length = 2 ∧ (∀ c ∈ m, IsDigit c) ∧
+      (s = y ++ '-' :: m ∨ ∃ d, d.length = 2 ∧ (∀ c ∈ d, IsDigit c) ∧ s = y ++ '-' :: (m ++ '-' :: d)))
+
+theorem iso8601_date_language (s : List Char) : isoDateAst.Accepts s ↔ IsIsoDate s := by
+  unfold Re.Accepts
+  rw [isoDate_head]
+  unfold isoDateFn
+  constructor
+  · intro h
+    rw [Option.map_eq_some_iff] at h
+    obtain ⟨e, hy, he⟩ := h
+    obtain ⟨y, rfl, hyl, hyw⟩ := (takeN_some _ _ _ _).1 hy
+    refine ⟨y, hyl, fun c hc => (has_digit c).1 (hyw c hc), ?_⟩
+    cases hd : dashDig 2 e with
+    | none => rw [hd] at he; simp only at he; subst he; left; simp
+    | some e2 =>
+      rw [hd] at he; simp only at he
+      obtain ⟨m, rfl, hml, hmw⟩ := (dashDig_some _ _ _).1 hd
+      right
+      refine ⟨m, hml, hmw, ?_⟩
+      cases hd3 : dashDig 2 e2 with
+      | none => rw [hd3] at he; simp only at he; subst he; left; simp
+      | some e3 =>
+        rw [hd3] at he; simp only at he; subst he
+        obtain ⟨d, rfl, hdl, hdw⟩ := (dashDig_some _ _ _).1 hd3
+        right; exact ⟨d, hdl, hdw, by simp⟩
+  · rintro ⟨y, hyl, hyw, h⟩
+    have hyw' : ∀ c ∈ y, dset.has c = true := fun c hc => (has_digit c).2 (hyw c hc)
+    rcases h with h | ⟨m, hml, hmw, h⟩
+    · have : takeN dset.has 4 y = some [] := by simpa using takeN_append dset.has 4 y [] hyl hyw'
+      rw [h, this]; simp [dashDig_none_nil]
+    · rcases h with rfl | ⟨d, hdl, hdw, rfl⟩
+      · rw [takeN_append dset.has 4 y _ hyl hyw']
+        have h1 : dashDig 2 ('-' :: m) = some [] := (dashDig_some _ _ _).2 ⟨m, by simp, hml, hmw⟩
+        simp [h1, dashDig_none_nil]
+      · rw [takeN_append dset.has 4 y _ hyl hyw']
+        have h1 : dashDig 2 ('-' :: (m ++ '-' :: d)) = some ('-' :: d) := (dashDig_some _ _ _).2 ⟨m, rfl, hml, hmw⟩
+        have h2 : dashDig 2 ('-' :: d) = some [] := (dashDig_some _ _ _).2 ⟨d, by simp, hdl, hdw⟩
+        simp [h1, h2]
+
+example : isoDateAst.Accepts "1999".toList := by decide
+example : isoDateAst.Accepts "1999-12".toList := by decide
+example : isoDateAst.Accepts "1999-12-31".toList := by decide
+example : ¬ isoDateAst.Accepts "1999-1".toList := by decide
+example : ¬ isoDateAst.Accepts "1999-12-3".toList := by decide
+example : ¬ isoDateAst.Accepts "1999-12-31-".toList := by decide
+
 end PP.C18
